@@ -845,6 +845,13 @@ func (w *world) assert(condv value, id string) {
 		}
 	}
 	r := w.feasible(q)
+	if r == rUnknown {
+		// an obligation the solver gave up on within the query timeout: ask
+		// again with five times the budget before calling it inconclusive
+		w.sv.setTimeout(5 * w.sv.timeout)
+		r = w.feasible(q)
+		w.sv.setTimeout(w.sv.timeout)
+	}
 	switch r {
 	case rUnsat:
 		w.recordObl(id, func(o *oblStat) { o.Checked++; o.Discharged++ })
@@ -1012,15 +1019,29 @@ func (w *world) resetPath(prefix []int) {
 }
 
 func (w *world) runPath(prefix []int) {
+	base := w.sv.timeout
 	for attempt := 0; ; attempt++ {
 		redo := w.runPathOnce(prefix)
 		if redo == nil {
+			if attempt > 0 {
+				// back to the normal per-query timeout
+				w.sv.close()
+				w.sv.timeout = base
+				w.sv.start()
+			}
 			return
 		}
+		// z3 applies its timeout to push/assert as well ("push canceled"), which
+		// on a loaded machine makes a healthy path fail: redo it with a fresh
+		// process and three times the timeout.
 		msg := w.sv.lastErr
 		w.sv.close()
 		w.sv.failed, w.sv.lastErr, w.sv.sawError = false, "", false
-		if err := w.sv.start(); err != nil || attempt >= 3 {
+		w.sv.timeout *= 3
+		if attempt >= 4 {
+			w.sv.timeout = base
+		}
+		if err := w.sv.start(); err != nil || attempt >= 4 {
 			w.ex.mu.Lock()
 			w.ex.paths++
 			w.ex.unsupp["solver failed repeatedly on one path: "+msg]++
